@@ -145,10 +145,10 @@ impl Monitor for C05 {
         4
     }
     fn gens(&self, tier: Tier) -> Vec<(&'static str, u64)> {
-        vec![("miri", 1), ("schedules", tier.pick(24, 600))]
+        vec![("miri", 1), ("schedules", tier.pick(24, 600)), ("wide", tier.pick(4, 40))]
     }
     fn rule(&self) -> &'static str {
-        "case = a network with every layer kind (convolution, feedback block of convolution+deconvolution, deconvolution, max-pool, three dense layers, a skip connection across the block, a loop connection over a dense layer, dropout on random layers), 24..64 training samples, batch 4..32, 2 epochs with 150..300 or 500..1300 validation inputs (2..21 chunks of 64, not a multiple of 64), followed by validate() and predict_batch() on the same inputs. The identical call is executed in a 1-thread pool without delays (reference) and in dedicated rayon pools of 2, 3, 4, 7, 16, 33 and 64 threads with the delay injector armed (random 0..300 us stalls at the entry of every per-sample forward pass, two delay seeds per pool size), plus once in an 8-thread pool while 16 busy threads starve the machine, plus a repetition of the reference. Every output - per-epoch train/validation loss and accuracy, all final weights, the validate() result, every predict_batch() output in order - must be bit-identical to the reference. Evidence that schedules differed: per training group the sample->worker assignment and the order in which the per-sample tasks started, taken from the event log; distinct = distinct (case, assignment/start-order) schedules observed. Miri leg: /verif/miri under -Zmiri-many-seeds (4 seeds quick, 32 thorough): every seed must print the same bit patterns and Miri must report no undefined behaviour or data race."
+        "case = a network with every layer kind (convolution, feedback block of convolution+deconvolution, deconvolution, max-pool, three dense layers, a skip connection across the block, a loop connection over a dense layer, dropout on random layers), 24..64 training samples, batch 4..32, 2 epochs with 150..300 or 500..1300 validation inputs (2..21 chunks of 64, not a multiple of 64), followed by validate() and predict_batch() on the same inputs. The identical call is executed in a 1-thread pool without delays (reference) and in dedicated rayon pools of 2, 3, 4, 7, 16, 33 and 64 threads with the delay injector armed (random 0..300 us stalls at the entry of every per-sample forward pass, two delay seeds per pool size), plus once in an 8-thread pool while 16 busy threads starve the machine, plus a repetition of the reference. Every output - per-epoch train/validation loss and accuracy, all final weights, the validate() result, every predict_batch() output in order - must be bit-identical to the reference. Evidence that schedules differed: per training group the sample->worker assignment and the order in which the per-sample tasks started, taken from the event log; distinct = distinct (case, assignment/start-order) schedules observed. wide: the same protocol on networks whose dense layers have 4096..8200 inputs or outputs. Miri leg: /verif/miri under -Zmiri-many-seeds (4 seeds quick, 32 thorough): every seed must print the same bit patterns and Miri must report no undefined behaviour or data race."
     }
     fn assumptions(&self) -> Vec<&'static str> {
         vec![
@@ -161,15 +161,40 @@ impl Monitor for C05 {
             return miri_leg(tier, seed);
         }
         let mut rng = Rng::stream(seed, gen, idx);
-        let cfg = everything_net(&mut rng);
-        let params = gen_params(&cfg, &mut rng, -0.7, 0.7).unwrap();
+        let wide = gen == "wide";
+        let cfg = if wide {
+            // dense layers with several thousand inputs / outputs (sizes beyond what small tests use)
+            let big = *rng.pick(&[4096usize, 5000, 8200]);
+            if idx % 2 == 0 {
+                NetCfg::plain(Sh::Flat(big), vec![LCfg::Dense { n: 5, act: Act::Tanh, bias: true, dropout: None }, LCfg::Dense { n: 2, act: Act::Linear, bias: true, dropout: None }])
+            } else {
+                NetCfg::plain(Sh::Flat(6), vec![LCfg::Dense { n: big, act: Act::Tanh, bias: true, dropout: None }, LCfg::Dense { n: 2, act: Act::Linear, bias: true, dropout: None }])
+            }
+        } else {
+            everything_net(&mut rng)
+        };
+        let params = if wide {
+            // plain random values (repetition-free generation is quadratic in the tensor size)
+            let mut ps = Vec::new();
+            let mut cur = cfg.input;
+            for l in cfg.layers.iter() {
+                if let LCfg::Dense { n, .. } = l {
+                    let m = cur.count();
+                    ps.push(P::Dense { w: (0..*n).map(|_| (0..m).map(|_| rng.f32_in(-0.05, 0.05)).collect()).collect(), b: Some((0..*n).map(|_| rng.f32_in(-0.1, 0.1)).collect()) });
+                    cur = Sh::Flat(*n);
+                }
+            }
+            ps
+        } else {
+            gen_params(&cfg, &mut rng, -0.7, 0.7).unwrap()
+        };
         let outputs = match cfg.layers.last().unwrap() {
             LCfg::Dense { n, .. } => *n,
             _ => 1,
         };
-        let n_train = rng.range(24, 64);
+        let n_train = if wide { 12 } else { rng.range(24, 64) };
         let batch = *rng.pick(&[4usize, 8, 13, 16, 32]);
-        let n_eval = if rng.bool() { rng.range(150, 300) } else { rng.range(500, 1300) };
+        let n_eval = if wide { 70 } else if rng.bool() { rng.range(150, 300) } else { rng.range(500, 1300) };
         let n_eval = if n_eval % 64 == 0 { n_eval + 1 } else { n_eval };
         let train = random_data(&mut rng, cfg.input, n_train, outputs, Obj::MSE, false);
         let mut eval = random_data(&mut rng, cfg.input, n_eval, outputs, Obj::MSE, false);
@@ -180,7 +205,7 @@ impl Monitor for C05 {
         let opt = gen_optimizer(&mut rng, (idx % 5) as usize);
         let desc = format!("{} | {} | train {} batch {} eval {}", cfg.describe(), opt.describe(), n_train, batch, n_eval);
         let mut out = Out::new(desc.clone());
-        out.count("schedule_cases", 1);
+        out.count(if wide { "wide_layer_cases" } else { "schedule_cases" }, 1);
         let ttags = train.tags();
         let (xr, tr) = (train.x_refs(), train.t_refs());
         let (vxr, vtr) = (eval.x_refs(), eval.t_refs());
